@@ -163,7 +163,7 @@ def main():
     for i, t in enumerate(trans):
         calls = base_calls(t["base"]) + [a for a in t["pre"]] + [t["act"]]
         scen.append({"kind": "lattice", "id": i, "calls": calls, "log": "last"})
-    recs, crashed = pv.run_driver_resilient(exe, scen, timeout=1200)
+    recs, crashed = pv.run_driver_resilient(exe, scen, timeout=1200, scen_timeout=60)
     byid = {r["id"]: r for r in recs if r.get("e") == "Call"}
     nbad = 0
     for i, t in enumerate(trans):
@@ -187,7 +187,7 @@ def main():
     nh = 400 if not thorough else 4000
     hl = 25
     hs = [{"kind": "lattice", "id": "h%d" % i, "calls": random_history(rng, hl)} for i in range(nh)]
-    recs, crashed = pv.run_driver_resilient(exe, hs, timeout=1200)
+    recs, crashed = pv.run_driver_resilient(exe, hs, timeout=1200, scen_timeout=60)
     ended = {r["id"] for r in recs if r.get("e") == "End"}
     c.sample({"history": hs[0]["calls"][:8]})
     lines = [r for r in recs if r.get("e") in ("Begin", "Call", "End") and r.get("id") in ended]
